@@ -3,6 +3,7 @@ package simrt
 import (
 	"errors"
 	"net"
+	"net/netip"
 	"os"
 	"strconv"
 	"syscall"
@@ -39,14 +40,14 @@ type Received struct {
 
 // Net is the simulated UDP network: listening sockets by port.
 type Net struct {
-	s        *Sim
-	socks    [16]*UDPConn
-	nsocks   int
-	Recv     []Received
-	Overflow int
-	NoSocket int
-	Trunc    int
-	QueueCap int
+	s          *Sim
+	socks      [16]*UDPConn
+	nsocks     int
+	Recv       []Received
+	Overflow   int
+	NoSocket   int
+	Trunc      int
+	QueueCap   int
 	ListenFail map[int]error
 }
 
@@ -238,6 +239,57 @@ func (c *UDPConn) ReadFromUDP(b []byte) (int, *net.UDPAddr, error) {
 	src := &net.UDPAddr{IP: d.Src.IP, Port: d.Src.Port, Zone: d.Src.Zone}
 	return n, src, nil
 }
+
+// ReadFrom mirrors net.UDPConn.
+func (c *UDPConn) ReadFrom(b []byte) (int, net.Addr, error) {
+	n, a, err := c.ReadFromUDP(b)
+	if a == nil {
+		return n, nil, err
+	}
+	return n, a, err
+}
+
+// Read mirrors net.UDPConn (the source address is dropped).
+func (c *UDPConn) Read(b []byte) (int, error) {
+	n, _, err := c.ReadFromUDP(b)
+	return n, err
+}
+
+// ReadFromUDPAddrPort mirrors net.UDPConn: the address comes back as a value
+// (4-byte sources as IPv4, 16-byte sources - also IPv4-mapped ones - as IPv6,
+// the way a dual-stack socket reports them).
+func (c *UDPConn) ReadFromUDPAddrPort(b []byte) (int, netip.AddrPort, error) {
+	n, a, err := c.ReadFromUDP(b)
+	if err != nil || a == nil {
+		return n, netip.AddrPort{}, err
+	}
+	var ip netip.Addr
+	if len(a.IP) == 4 {
+		ip = netip.AddrFrom4([4]byte{a.IP[0], a.IP[1], a.IP[2], a.IP[3]})
+	} else {
+		var b16 [16]byte
+		copy(b16[:], a.IP)
+		ip = netip.AddrFrom16(b16)
+	}
+	return n, netip.AddrPortFrom(ip, uint16(a.Port)), nil
+}
+
+// ReadMsgUDP mirrors net.UDPConn (no out-of-band data).
+func (c *UDPConn) ReadMsgUDP(b, oob []byte) (n, oobn, flags int, addr *net.UDPAddr, err error) {
+	n, addr, err = c.ReadFromUDP(b)
+	return n, 0, 0, addr, err
+}
+
+// SetDeadline / SetWriteDeadline mirror net.UDPConn (writes never block here).
+func (c *UDPConn) SetDeadline(t time.Time) error      { return c.SetReadDeadline(t) }
+func (c *UDPConn) SetWriteDeadline(t time.Time) error { return nil }
+
+// RemoteAddr mirrors net.UDPConn (listening sockets have none).
+func (c *UDPConn) RemoteAddr() net.Addr { return nil }
+
+// WriteToUDP / WriteTo: a collector socket is not written to; the octets are dropped.
+func (c *UDPConn) WriteToUDP(b []byte, addr *net.UDPAddr) (int, error) { return len(b), nil }
+func (c *UDPConn) WriteTo(b []byte, addr net.Addr) (int, error)        { return len(b), nil }
 
 // Close mirrors net.UDPConn.
 func (c *UDPConn) Close() error {
